@@ -317,7 +317,11 @@ class C18(Prop):
     title = 'P2P messages: framing, payload layout and stream parsing exact and invertible'
     lean_targets = ['BtcVerif.Props.C18']
     table_groups = ['Chain', 'Messages']
-    theorems = []
+    theorems = ['BtcVerif.C18.' + t for t in (
+        'chain_magic_length', 'payload_eq_spec', 'frame_eq_spec', 'payload_roundtrip', 'parse_frame',
+        'reframe_identical', 'parse_reframe', 'fromBytes_frame', 'parse_stream', 'bad_magic_rejected',
+        'bad_checksum_rejected', 'corrupted_payload_rejected', 'accepted_frame_valid', 'truncated_frame_trunc',
+        'length_guard', 'position_le_frame_end')]
     anchors = ([('bitcoin/messages.py', 'MsgSerializable.to_bytes'),
                 ('bitcoin/messages.py', 'MsgSerializable.stream_deserialize'),
                 ('bitcoin/messages.py', 'MsgSerializable.from_bytes')] +
@@ -516,11 +520,21 @@ class C18(Prop):
                 if not wild or kind == 'version':
                     wf.append((ch, m))
         # version boundary versions with all fields present: what a node of that version would parse
-        for ver in sorted(set(VERSIONS) | {v for v in self.pool if -(1 << 31) <= v < (1 << 31)}):
-            if rng.randrange(nshards) == 0 or big:
+        for vi, ver in enumerate(sorted(set(VERSIONS) | {v for v in self.pool if -(1 << 31) <= v < (1 << 31)})):
+            if vi % nshards == shard or big:
                 m = list(gen_msg(rng, 'version'))
                 m[1] = ver
                 wf.append((rng.choice(CHAINS), tuple(m)))
+        # CompactSize switch points 0xffff/0x10000 on a byte string (and, thorough, on a vector count)
+        if shard == 1 % nshards:
+            for ln in (0xffff, 0x10000, 0x10001):
+                m = ('alert', rng.randbytes(ln), b'x')
+                yield mk('c18.frame', 'mainnet', show_msg(m), 0, tag='frame:alert-long')
+                wf.append(('mainnet', m))
+        if big and shard == 2 % nshards:
+            m = ('inv', [(1, rng.randbytes(32))] * 0x10000)
+            yield mk('c18.frame', 'regtest', show_msg(m), 0, tag='frame:inv-65536')
+            wf.append(('regtest', m))
 
         # (b) round trips and streams built from the model's frames
         frames = [(ch, m, b) for (ch, m), b in zip(wf, self.model_frames(wf)) if b is not None]
